@@ -1,7 +1,8 @@
 ------------------------------- MODULE MC_Num -------------------------------
 (* C14: every unit x every operand in 0..NMAX (and numerals near 2^63 /      *)
 (* 2^64) against files of k*unit-1, k*unit, k*unit+1 bytes; link counts and  *)
-(* owner ids likewise.  The laws are the property's own sentences.           *)
+(* owner ids likewise; ages in days and minutes from two periods in the      *)
+(* future to three in the past.  The laws are the property's own sentences.  *)
 EXTENDS Numeric, Json, TLC
 
 CONSTANTS NMAX, KMAX, EMIT
@@ -11,6 +12,8 @@ SizeFiles == <<[k |-> 0, d |-> 0], [k |-> 0, d |-> 1]>> \o
 ByteFiles == [i \in 1..12 |-> [bytes |-> <<0, 1, 2, 511, 512, 513, 1023, 1024, 1025, 1048575, 1048576, 1048577>>[i]]]
 ValFiles == [i \in 1..4 |-> [v |-> i]]
 IdFiles == [i \in 1..4 |-> [v |-> i - 1]]       \* owner ids start at 0: "-uid -0" must select nothing
+\* ages in whole periods; below zero: a timestamp later than 'now' (N, +N, -N are read the same way there)
+AgeFiles == [i \in 1..6 |-> [v |-> i - 3]]
 Operands == {[v |-> n] : n \in 0..NMAX} \cup
             {[huge |-> "9223372036854775807"], [huge |-> "9223372036854775808"], [huge |-> "18446744073709551615"]}
 
@@ -22,6 +25,7 @@ Next ==
   /\ \/ prim' = "size" /\ unit' \in Units /\ files' \in {SizeFiles, ByteFiles}
      \/ prim' = "links" /\ unit' = "" /\ files' = ValFiles
      \/ prim' \in {"uid", "gid"} /\ unit' = "" /\ files' = IdFiles
+     \/ prim' \in {"mtime", "mmin", "atime", "amin"} /\ unit' = "" /\ files' = AgeFiles /\ "v" \in DOMAIN n'
 Spec == Init /\ [][Next]_vars
 
 Sel(form) == Selected(prim, unit, form, n, files)
